@@ -344,9 +344,12 @@ carquet_status_t carquet_page_writer_add_values(
 
     switch (writer->type) {
         case CARQUET_PHYSICAL_BOOLEAN: {
+            /* Booleans are bit-packed over the whole page, so the values of
+             * successive batches must share bytes: keep one byte per value
+             * here and pack once in carquet_page_writer_finalize(). */
             const uint8_t* bools = (const uint8_t*)values;
-            status = carquet_encode_plain_boolean(bools, num_non_null,
-                                                   &writer->values_buffer);
+            status = carquet_buffer_append(&writer->values_buffer, bools,
+                                           (size_t)num_non_null);
             break;
         }
 
@@ -521,9 +524,21 @@ carquet_status_t carquet_page_writer_finalize(
         }
     }
 
-    carquet_buffer_append(&uncompressed,
-                           writer->values_buffer.data,
-                           writer->values_buffer.size);
+    if (writer->type == CARQUET_PHYSICAL_BOOLEAN) {
+        if (writer->values_buffer.size > 0) {
+            carquet_status_t bstatus = carquet_encode_plain_boolean(
+                writer->values_buffer.data,
+                (int64_t)writer->values_buffer.size, &uncompressed);
+            if (bstatus != CARQUET_OK) {
+                carquet_buffer_destroy(&uncompressed);
+                return bstatus;
+            }
+        }
+    } else {
+        carquet_buffer_append(&uncompressed,
+                               writer->values_buffer.data,
+                               writer->values_buffer.size);
+    }
 
     *uncompressed_size = (int32_t)uncompressed.size;
 
@@ -632,7 +647,11 @@ carquet_status_t carquet_page_writer_finalize(
 size_t carquet_page_writer_estimated_size(const carquet_page_writer_t* writer) {
     if (!writer) return 0;
     /* Levels are held raw (2 bytes each) until the page is finalized */
-    return writer->values_buffer.size +
+    size_t values_size = writer->values_buffer.size;
+    if (writer->type == CARQUET_PHYSICAL_BOOLEAN) {
+        values_size = (values_size + 7) / 8;  /* one byte per value until packed */
+    }
+    return values_size +
            writer->def_levels_buffer.size / 2 +
            writer->rep_levels_buffer.size / 2 + 64;  /* Header overhead */
 }
